@@ -125,7 +125,12 @@ pub fn run(ctx: &mut Ctx) {
         parse_case(ctx, &format!("age_over_{n:03}"));
     }
     let base = vec![("age_over_18".to_string(), Value::Bool(true)), ("age_over_21".to_string(), Value::Bool(false))];
+    let no_age: Vec<(String, Value)> = vec![("family_name".to_string(), Value::Text("Doe".into())), ("birth_date".to_string(), Value::Text("1990-01-01".into()))];
     for id in odd_ids.iter() {
+        // a malformed request is refused whatever is held: nothing, nothing age-related, only false claims
+        one_case(ctx, "odd_request_nothing_held", id, &[]);
+        one_case(ctx, "odd_request_no_age_element", id, &no_age);
+        one_case(ctx, "odd_request_false_only", id, &[("age_over_21".to_string(), Value::Bool(false))]);
         one_case(ctx, "odd_request", id, &base);
         let mut h = base.clone();
         h.push((id.to_string(), Value::Bool(true)));
